@@ -538,7 +538,7 @@ fn record(rep: &mut Report, case: &Case) {
 }
 
 pub fn run(ctx: &Ctx) -> Report {
-    let n = ctx.size(3_000_000, 150_000_000) as usize;
+    let n = ctx.size(10_000_000, 150_000_000) as usize;
     let batches = (n + 49) / 50;
     par_items(ctx.threads, batches + 1, ctx.seed, move |i, seed, rep| {
         if i == 0 {
